@@ -37,7 +37,7 @@ func jsonMenu(tier string) []jval {
 		{"float", 1.5, false}, {"true", true, false}, {"array", []any{}, false}, {"object", map[string]any{}, false},
 		{"tmpl-open", "{{", false}, {"tmpl-field", "{{.x}}", false}, {"tmpl-call", `{{template "x"}}`, false},
 		{"str-null", "null", false}, {"str-true", "true", false}, {"str-1", "1", false}, {"str-quoted", `"s"`, false}, {"str-array", "[]", false}, {"str-object", "{}", false},
-		{"slash", "a/b", false}, {"seps", ":?#%_*", false}, {"markup", `<>&"'`, false}, {"non-ascii", "é✓", false}, {"nul", "a\x00b", false},
+		{"slash", "a/b", false}, {"blank", " ", false}, {"nbsp", "\u00a0", false}, {"trailing-slash", "a/", false}, {"seps", ":?#%_*", false}, {"markup", `<>&"'`, false}, {"non-ascii", "é✓", false}, {"nul", "a\x00b", false},
 		{"recv-obj-null-data", map[string]any{"type": "poll", "data": nil}, false},
 		{"recv-obj-no-type", map[string]any{"data": map[string]any{}}, false},
 		{"recv-str-json-null-data", `{"type":"poll","data":null}`, false},
@@ -162,7 +162,7 @@ func httpInputs(base *t_api.Request, tier string) []hostile {
 			}
 		}
 		for _, hk := range []string{"idempotency-key", "strict", "request-id"} {
-			for _, hv := range []string{"", "x", "maybe", "{{", "null", "é", strings.Repeat("k", 4096)} {
+			for _, hv := range []string{"", "x", "maybe", "{{", "null", "é", " ", "\t", "\u00a0", "\u0085", "a b", strings.Repeat("k", 4096)} {
 				r := req
 				r.Headers = map[string]string{}
 				for k, v := range req.Headers {
@@ -211,7 +211,7 @@ func forgedCursor() string {
 }
 
 func strMenu() []string {
-	return []string{"", "x", "{{", "{{.x}}", "null", "a/b", ":?#%_*", `<>&"'`, "é✓", "a\x00b", big}
+	return []string{"", "x", "{{", "{{.x}}", "null", "a/b", ":?#%_*", `<>&"'`, "é✓", "a\x00b", " ", "\t\n", "\u00a0", big}
 }
 
 // grpcInputs: every scalar field of the request message (recursively) set to hostile
